@@ -46,6 +46,19 @@ CLAIMED["C05"] = dict(
     technique="symbolic execution of real code (CrossHair+z3): symbolic datagram bytes and packet contents, differential against a fresh protocol object",
 )
 
+CLAIMED["C04"] = dict(
+    text="Bounded symbolic execution of the real SocketStreamTransport.send_all / send_all_from_iterable (sendmsg and join variants, SC_IOV_MAX real/2/0), adjust_leftover_buffer, _retry and StreamEndpoint.send_packet over a fake non-blocking socket: chunk vectors with empty chunks in every position (symbolic contents), solver-chosen partial-write sizes and would-block pattern. Asserted: the call returns, bytes accepted by the kernel == concatenation of the chunks, environment calls within the fuel bound (a spin is a violation); with a finite budget T and time as a solver variable the call ends within T.",
+    design="4/C04",
+    technique="symbolic execution of real code (CrossHair+z3): partial-write sizes, EAGAIN pattern, elapsed times as solver variables; fuel bound for termination",
+    note="Sync plain-socket transport and endpoint; SSLStreamTransport (OpenSSL) and the asyncio/TLS senders are outside this check (C12/C20 cover the asyncio ones).",
+)
+CLAIMED["C11"] = dict(
+    text="Bounded symbolic execution with time as a solver variable: every selector wait and lock wait advances a virtual clock by a symbolic number of ticks. For _retry (via transport.recv/send), send_all / send_all_from_iterable, StreamEndpoint.recv_packet with a drip-fed frame (both receive paths) and the real TCPNetworkClient (send_packet, recv_packet, iter_received_packets with a contended lock): elapsed <= T, TimeoutError only when the whole budget is consumed, T = 0 never waits.",
+    design="4/C11",
+    technique="symbolic execution of real code (CrossHair+z3) with a virtual clock: elapsed times, readiness, would-block and lock contention as solver variables",
+    note="Processing time between waits is modelled as zero; integer ticks; <= K would-blocks per call (bounded unrolling, no loop-head induction).",
+)
+
 NOT_APPLICABLE = {
     "C08": "TLS byte-transparency/encryption is decided inside OpenSSL's record layer (C code, cryptography): it cannot be executed symbolically by any installed engine; stubbing it would verify the stub, and running real OpenSSL realises every symbolic size (degenerates to concrete enumeration). See DESIGN.md section 5.",
     "C09": "Whether a cut at a byte offset of a real ciphertext stream yields SSLEOFError / SSLZeroReturnError / a protocol error is OpenSSL's partial-record parsing, not encodable; the EasyNetwork part is a three-way exception mapping. See DESIGN.md section 5.",
